@@ -263,7 +263,7 @@ impl MergeEntry {
 
 impl PartialEq for MergeEntry {
     fn eq(&self, other: &Self) -> bool {
-        self.compare_to(other) == Ordering::Equal
+        self.cmp(other) == Ordering::Equal
     }
 }
 
@@ -277,8 +277,11 @@ impl PartialOrd for MergeEntry {
 
 impl Ord for MergeEntry {
     fn cmp(&self, other: &Self) -> Ordering {
-        // Reverse for min-heap behavior (we want smallest first)
-        other.compare_to(self)
+        // Reverse for min-heap behavior (we want smallest first); rows with equal keys
+        // leave in the order of their runs, which makes the merge stable
+        other
+            .compare_to(self)
+            .then_with(|| other.run_index.cmp(&self.run_index))
     }
 }
 
@@ -655,5 +658,18 @@ mod tests {
         let concatenated = concat_parallel_results(results);
 
         assert_eq!(concatenated.len(), 3);
+    }
+
+    #[test]
+    fn test_merge_sorted_runs_is_stable() {
+        let r = |k: i64, p: i64| vec![Value::Int64(k), Value::Int64(p)];
+        let runs = vec![
+            vec![r(2, 2), r(3, 1)],
+            vec![r(1, 4), r(3, 3)],
+            vec![r(2, 6), r(3, 5)],
+        ];
+        let result = merge_sorted_runs(runs, &[SortKey::ascending(0)]).unwrap();
+        let expected = vec![r(1, 4), r(2, 2), r(2, 6), r(3, 1), r(3, 3), r(3, 5)];
+        assert_eq!(result, expected);
     }
 }
